@@ -31,9 +31,13 @@ def lattices(tier, seed):
         ]
     return [
         deep,
-        dict(D=2, Ns=P2([1, 2, 3, 4, 5], 2), Ms=P2([1, 2, 3, 4], 2), Modes={"TORUS", "SAME", "VALID", "EXPL"},
+        # (the full product 5^2 x 4^2 x 3^2 x 3^2 of extents and dilations is 2.6e6 (cell, g) states at ~150/s: ~5 h; this
+        #  sub-lattice keeps every value of every axis and all pairwise interactions of the small values: ~3.6e5 states)
+        dict(D=2, Ns=P2([1, 2, 3, 4], 2) | {(5, 5), (5, 2), (2, 5)}, Ms=P2([1, 2, 3], 2) | {(4, 4), (4, 1), (1, 4), (4, 3)},
+             Modes={"TORUS", "SAME", "VALID", "EXPL"},
              Pads={((1, 1), (1, 1)), ((2, 2), (1, 1)), ((3, 3), (0, 0))}, StrideSet={(1, 1)},
-             RdilSet=P2([1, 2, 3], 2), LdilSet=P2([1, 2, 3], 2), GroupMode="all", SampleMod=307, Seed=seed % 307),
+             RdilSet={(1, 1), (2, 1), (1, 2), (2, 2), (3, 1), (3, 3)}, LdilSet={(1, 1), (1, 2), (2, 2)},
+             GroupMode="all", SampleMod=307, Seed=seed % 307),
         dict(D=3, Ns=P2([1, 2, 3], 3), Ms={(1, 1, 1), (3, 3, 3), (2, 2, 2), (1, 3, 2), (3, 1, 3)},
              Modes={"TORUS", "SAME", "VALID", "EXPL"}, Pads={((1, 1), (1, 1), (1, 1)), ((2, 2), (0, 0), (1, 1))},
              StrideSet={(1, 1, 1)}, RdilSet={(1, 1, 1), (2, 1, 1), (2, 2, 2)}, LdilSet={(1, 1, 1), (1, 2, 1), (2, 2, 2)},
@@ -47,7 +51,7 @@ def main(tier):
                 "code-level cases = random (cfg, g, (k,p), (k',p')); non-trivial = g is not the identity; distinct by "
                 "(cfg, g, types)")
     lat = lattices(tier, core.SEED)
-    tables = cc.run_lattices(chk, lat, parallel=2, workers=8)
+    tables = cc.run_lattices(chk, lat, parallel=2, workers=8, coverage=(tier == "quick"))
     chk.extra["lattices"] = [{k: (sorted(v) if isinstance(v, set) else v) for k, v in c.items()} for c in lat]
     chk.exhaustive = True
     cc.replay_tables(chk, tables)
